@@ -13,7 +13,7 @@ func init() {
 	c14 := []*ir.Profile{
 		{Name: "c14-plain", MinSteps: 1, MaxSteps: 4, Durs: []int64{0, 1, 5, 20, 100}, PWaitFor: 40, PDeploySlow: 30, PDisabled: 30, MaxOutputs: 2, DeepExpr: true},
 		{Name: "c14-failing", MinSteps: 1, MaxSteps: 4, Durs: []int64{0, 5, 50}, Modes: []string{"err", "crash", "alt"}, PBad: 40, PDeployFail: 15, PDisabled: 30, PWaitFor: 30, MaxOutputs: 3, ErrOutput: true, PErrPathRef: 20},
-		{Name: "c14-loops", MinSteps: 1, MaxSteps: 3, Durs: []int64{0, 5, 50}, Foreach: 60, PWaitFor: 20, PDisabled: 30, MaxOutputs: 2, Modes: []string{"err"}, PBad: 15},
+		{Name: "c14-loops", ItemsFromStep: 30, MinSteps: 1, MaxSteps: 3, Durs: []int64{0, 5, 50}, Foreach: 60, PWaitFor: 20, PDisabled: 30, MaxOutputs: 2, Modes: []string{"err"}, PBad: 15},
 		{Name: "c14-tags", MinSteps: 2, MaxSteps: 4, Durs: []int64{0, 5, 50}, PDisabled: 50, PWaitFor: 20, Tags: true, MaxOutputs: 2},
 	}
 	register(&PropDef{ID: "C14",
